@@ -2,8 +2,8 @@
   A whole command on the wire: the fixed prologue/epilogue every generated `Marshal`/`Unmarshal`
   shares (AndX words, `AddWordsFromBytesStream`, `Parameters.Marshal`, `Data.Add`/`Marshal`, and
   the mirror-image split in `Unmarshal`) around the extracted IR programs, plus the static
-  predicates on programs (`Consistent`, `Conforms`, `Guarded`) that the property files decide
-  per command.  Core Lean only.
+  predicates on programs (`Consistent`, `Guarded`, the pieces of `Conforms` — completed in
+  `Model/SmbConforms.lean`) that the property files decide per command.  Core Lean only.
 -/
 import Manticore.Model.SmbIR
 namespace Manticore.SmbIR
@@ -129,11 +129,8 @@ def isSublistOf [BEq α] : List α → List α → Bool
   | _ :: _, [] => false
   | a :: as, b :: bs => if a == b then isSublistOf as bs else isSublistOf (a :: as) bs
 
-/-- C05 static predicate: every integer little-endian with the width of its declared type, and
-    fields emitted in declaration order, parameters before data -/
-def Conforms (c : Cmd) : Bool :=
-  conformsStmts c c.marshal &&
-  isSublistOf (wireOrder c) (c.fields.map (·.1))
+/-! The C05 static predicate `Conforms` is assembled from these pieces (and from the specification's
+    reading of the declared types) in `Model/SmbConforms.lean`. -/
 
 /-! ### Guarded (C07): every slice or index of the unmarshal program is dominated by a guard on the
     same block, with no offset change in between, that implies it -/
